@@ -590,6 +590,18 @@ def class_rep(x):
     return rep
 
 
+def pack_rep(x):
+    """representative used when a symbolic real is *written* (struct.pack): the class it was hashed into if its term
+    is syntactically known, otherwise a fresh placeholder -- no equality forks (positions, not dict keys)."""
+    ctx = Ctx.cur
+    for (t, rep) in ctx.classes:
+        if z3.eq(t, x.e):
+            return rep
+    rep = 1000.5 + len(ctx.classes)
+    ctx.classes.append((x.e, rep))
+    return rep
+
+
 def register_const(v):
     """A concrete number used as a dict key next to symbolic ones: make it a class of its own (forks on equality)."""
     ctx = Ctx.cur
@@ -1204,7 +1216,7 @@ class StructShim:
         out = []
         for v in vals:
             if isinstance(v, SymReal):
-                out.append(class_rep(v))
+                out.append(pack_rep(v))
             elif isinstance(v, SymInt):
                 out.append(v.__index__())
             else:
